@@ -2,7 +2,7 @@
   C14 — The dynamic-binding mode changes only the support code and its diagnostics.
 
   Model : QV.Model.Passes (`run`): code maps → constant pass → left-over attached check → mode switch
-          (`cxxAll` for generate, `rejectAll` for reject, nothing for omit).
+          (`cxxAll` for generate, `rejectAll` for reject, the diagnostics of `cxxAll` without the header for omit).
   Tie   : stream `c14` (every document in the three modes in-process: .ui bytes, acceptance, header scan,
           diagnostic multisets; and per-mode diagnostics vs the model).
 -/
@@ -60,31 +60,33 @@ theorem reject_iff_empty_generate (doc : Forest) :
     · rintro ⟨⟨hp, hc, hd⟩, s, rfl, hb, hcon⟩
       exact ⟨hp, hc, hd, hb, hcon⟩
 
-/-- **(d) The diagnostics of `omit` are those of the common phases**: they are reported, in the same order,
-    in the two other modes, which only append their own. -/
-theorem omit_errors_subset_generate (doc : Forest) :
-    (run .omit doc).diags.Sublist (run .generate doc).diags ∧
-      (run .omit doc).diags.Sublist (run .reject doc).diags := by
+/-- **(d) `omit` reports exactly what `generate` reports**: since the repair of F21 (/repo c47e7fb) preview mode
+    builds the support code for its diagnostics and discards it, so the two modes differ only in the presence of
+    the header. -/
+theorem omit_errors_eq_generate (doc : Forest) : (run .omit doc).diags = (run .generate doc).diags := by
   cases h : valid doc
-  · rw [(run_invalid doc h .generate).1, (run_invalid doc h .reject).1]
-    exact ⟨List.Sublist.refl _, List.Sublist.refl _⟩
-  · rw [run_reject doc h, run_generate doc h, run_omit doc h]
-    exact ⟨List.sublist_append_left _ _, List.sublist_append_left _ _⟩
+  · rw [(run_invalid doc h .generate).1]
+  · rw [run_generate doc h, run_omit doc h]
 
-/-- what `generate` reports beyond `omit` comes from the C++ pass -/
-theorem generate_only_errors_are_cxx (doc : Forest) :
-    ∀ d ∈ (run .generate doc).diags, d ∈ (run .omit doc).diags ∨ d.kind = .cxxRetType ∨
-      d.kind = .cxxNotReadable ∨ d.kind = .cxxNotWritable ∨ d.kind = .cxxNested := by
-  intro d hd
-  cases h : valid doc
-  · rw [(run_invalid doc h .generate).1] at hd
-    exact .inl hd
-  · rw [run_generate doc h] at hd
-    rw [run_omit doc h]
-    simp only [List.mem_append] at hd
-    rcases hd with hd | hd
-    · exact .inl hd
-    · exact .inr (cxxAll_diags _ d hd)
+/-- the clause of the property: any error reported in omit mode is also reported in generate mode -/
+theorem omit_errors_subset_generate (doc : Forest) :
+    (run .omit doc).diags.Sublist (run .generate doc).diags := by
+  rw [omit_errors_eq_generate]
+  exact List.Sublist.refl _
+
+/-- hence a document is accepted in preview mode exactly when it is accepted in generate mode -/
+theorem omit_accepted_iff_generate (doc : Forest) : (run .omit doc).accepted = (run .generate doc).accepted := by
+  obtain ⟨_, hb, hp⟩ := run_state .generate doc
+  simp only [Result.accepted, omit_errors_eq_generate doc, hb, hp]
+
+/-- the diagnostics of the phases before the mode switch are reported, in the same order, in every mode; each mode
+    only appends its own -/
+theorem common_errors_in_every_mode (m : Mode) (doc : Forest) (h : valid doc = true) :
+    (commonDiags (place .root doc).1 (place .root doc).2).Sublist (run m doc).diags := by
+  cases m
+  · rw [run_generate doc h]; exact List.sublist_append_left _ _
+  · rw [run_reject doc h]; exact List.sublist_append_left _ _
+  · rw [run_omit doc h]; exact List.sublist_append_left _ _
 
 /-- what `reject` reports beyond `omit` comes from the reject pass -/
 theorem reject_only_errors_are_rej (doc : Forest) :
@@ -98,7 +100,7 @@ theorem reject_only_errors_are_rej (doc : Forest) :
     rw [run_omit doc h]
     simp only [List.mem_append] at hd
     rcases hd with hd | hd
-    · exact .inl hd
+    · exact .inl (List.mem_append_left _ hd)
     · exact .inr (rejectAll_diags _ d hd)
 
 /-- **(e) A header is produced only by `generate`**, and then whenever a form was built. -/
@@ -139,6 +141,13 @@ example : (run .generate static).accepted = true ∧ (run .reject static).accept
     (run .omit static).accepted = true ∧
     (run .generate static).support = some { bindings := [], generated := [], repeated := [], connected := [] } ∧
     (run .omit static).form = some [(0, .widget, [(11, 1)]), (1, .action, [(12, 1)])] := by
+  decide
+
+/-- an ill-typed dynamic binding is reported in preview mode as in generate mode, without a header -/
+example : let doc : Forest := .cons { oid := 0, isWidget := true
+                                      entries := [.leaf { id := 10, name := "text".toList, retTypeOk := false }] } .nil .nil
+    (run .omit doc).diags = [⟨10, .cxxRetType⟩] ∧ (run .generate doc).diags = [⟨10, .cxxRetType⟩] ∧
+    (run .omit doc).support = none ∧ (run .omit doc).accepted = false := by
   decide
 
 /-- a callback alone makes `reject` refuse, with an empty binding list -/
